@@ -455,6 +455,15 @@ pub fn end(ep: u32) -> Report {
 const MAX_LEAK: usize = 256;
 static mut LEAKS: [(usize, usize); MAX_LEAK] = [(0, 0); MAX_LEAK];
 
+/// (size, align) of the live block whose user pointer is exactly `ptr`.
+#[allow(static_mut_refs)]
+pub fn block_of(ptr: usize) -> Option<(usize, usize)> {
+    lock();
+    let r = unsafe { table_find(ptr).map(|i| (TABLE[i].size, TABLE[i].align as usize)) };
+    unlock();
+    r
+}
+
 /// Number of live blocks currently recorded (whole process).
 pub fn live_blocks() -> usize {
     USED.load(Ordering::Relaxed)
